@@ -638,9 +638,29 @@ def _job_extension(job: Dict[str, Any]) -> Dict[str, Any]:
                 out["executions"] += 1
                 ep[f"{api}{kw or ''}:{'v' if verify else 'nv'}"] = res if kind == "raise" else f"{len(res)} row(s)"
         obs["empty projection columns=[] with a filter matching 2 rows"] = ep if len(set(map(str, ep.values()))) > 1 else next(iter(ep.values()))
-        # ("is_null", False): the value is ignored
-        kind, res = _call(small, "scan", {}, {"l": ("is_null", False)}, None, True)
-        obs["('is_null', False) on a column without NULLs"] = res if kind == "raise" else f"{len(res)} row(s) (value ignored: same as ('is_null', True))"
+        # ---- claimed (violations, not observations) ----
+        # (1) the null operators take a flag: ("is_null", False) is the complement, in every API (it used to be ignored)
+        # (2) the operand of in / not_in may be any iterable, also a one-shot one (it used to be consumed by the first walk)
+        for api, kw in VARIANTS:
+            for verify in (True, False):
+                def rids(fd_: Any) -> Any:
+                    kind_, res_ = _call(tbl, api, kw, fd_, None, verify)
+                    out["executions"] += 1
+                    return res_.split(":")[0] if kind_ == "raise" else sorted(x["rid"] for x in res_)
+
+                for col in ("l", "d"):
+                    for a_, b_ in ((("is_null", False), ("is_not_null", True)), (("is_not_null", False), ("is_null", True)),
+                                   (("isnull", False), ("notnull", True))):
+                        got, want_ = rids({col: a_}), rids({col: b_})
+                        if got != want_:
+                            out["violations"].append((f"null-flag-ignored:{api}", f"{api}({_kwtxt({"kwargs": kw, "verify_checksums": verify, "columns": None})}) with filter {{{col!r}: {a_!r}}} returns rows {got}, "
+                                                      f"but the complement {{{col!r}: {b_!r}}} returns {want_}: the False flag is reinterpreted", {"api": api, "filter": repr({col: a_})}))
+                    for op_ in ("in", "not_in"):
+                        vals = [1, 0] if col == "l" else [1.0, 0.0]
+                        got, want_ = rids({col: (op_, (v for v in vals))}), rids({col: (op_, list(vals))})
+                        if got != want_:
+                            out["violations"].append((f"one-shot-operand:{api}:{op_}", f"{api}({_kwtxt({"kwargs": kw, "verify_checksums": verify, "columns": None})}) with filter {{{col!r}: ({op_!r}, <generator of {vals}>)}} returns rows {got}, "
+                                                      f"with the same values as a list {want_}", {"api": api, "op": op_, "values": vals}))
         out["notes"]["extension"] = obs
     finally:
         shutil.rmtree(d, ignore_errors=True)
